@@ -191,6 +191,8 @@ class Engine:
                 continue
             exp_g = pre[recv_slot] if alt["g"] == "=" else canon(alt["g"])
             d = diff(proj[recv_slot], exp_g)
+            if not d and alt["g"] == "=" and proj[recv_slot] != 0 and proj[recv_slot].get("raw") != pre[recv_slot].get("raw"):
+                d = "raw container views (a key appeared or vanished)"
             if d:
                 why.append(f"receiver differs in {d}")
                 continue
@@ -225,9 +227,9 @@ class Engine:
         post = json.loads(post_t)
         idx = {"A": 0, "B": 1, "C": 2}
         exp_g = pre[recv_slot] if alt["g"] == "=" else canon(alt["g"])
-        if canon(post[idx[recv_slot]]) != exp_g:
+        if diff(canon(post[idx[recv_slot]]), exp_g):
             return False
-        if alt["res"] != 0 and canon(post[idx[res_slot]]) != canon(alt["res"]):
+        if alt["res"] != 0 and diff(canon(post[idx[res_slot]]), canon(alt["res"])):
             return False
         if alt["out"] == "ans" and interp.spec_answer(alt["ans"]) != interp.spec_answer(info["ans"]):
             return False
@@ -309,7 +311,8 @@ class Engine:
         props = set()
         must_raise = allowed == ["raise"]
         lookup_absent = name in QUERIES and "raise" in allowed
-        if must_raise or lookup_absent:
+        raised_but_changed = outk == "raise" and any("receiver differs" in w for w in why)
+        if must_raise or lookup_absent or raised_but_changed:
             props.add("C19")
         if name in ("relabel_inplace", "relabel_copy") or "relabel" in tags:
             props.add("C11")
